@@ -1,6 +1,8 @@
 import Genshi.Wire
 import Genshi.Model.Lru
 import Genshi.Model.Loader
+import Genshi.Model.LoaderRace
+import Genshi.Gen.Loader
 namespace Driver.C15
 open Genshi Genshi.Sexp Genshi.Lru
 
@@ -104,6 +106,24 @@ def hop? : Sexp → Option HOp
       pure (.load ⟨base, sub, absd, rel, cls, enc, cb, fault⟩)
   | _ => none
 
+/-- `LR …`: a load during which the file it opens is replaced (before / right after `open`) -/
+def hopR? : Sexp → Option HOpR
+  | .list [.atom "LR", base, sub, absd, rel, cls, enc, cb, fault, before, c, bad] => do
+      let base ← base.toNat?; let sub ← sub.toBool?; let absd ← optNat? absd; let rel ← rel? rel
+      let cls ← cls.toNat?; let enc ← enc.toNat?; let cb ← cb.toBool?; let fault ← fault? fault
+      let before ← before.toBool?; let c ← c.toNat?; let bad ← bad.toBool?
+      pure (.loadRace ⟨base, sub, absd, rel, cls, enc, cb, fault⟩ ⟨before, c, bad⟩)
+  -- a modification that sets an arbitrary modification time
+  | .list [.atom "WA", d, sub, base, c, bad, m] => do
+      let l ← loc? d sub base; let c ← c.toNat?; let b ← bad.toBool?; let m ← m.toNat?
+      pure (.writeAt l c b m)
+  | x => (hop? x).map .plain
+
+def reqOf : HOpR → Option Req
+  | .plain (.load r) => some r
+  | .loadRace r _ => some r
+  | _ => none
+
 def errS : Err → Sexp
   | .notFound => .atom "TemplateNotFound"
   | .syntaxError => .atom "TemplateSyntaxError"
@@ -133,27 +153,62 @@ def lstateS (s : LState) (keys : List Key) : Sexp :=
   .list [.list (s.cache.items.map fun (k, t) => .list [keyS k, ofNat t.obj]),
          ofNat s.cbLog.length, ofNat s.parsed.length, ofNat s.lock, utdS s keys]
 
-def histRun (cfg : Cfg) : World → List Key → List HOp → List Sexp
+/-- the model is run with what the code does about the modification time (generated constant,
+    probed on `directory()`); the theorems are about `true` (`code_takes_mtime_of_opened_file`) -/
+def histRun (cfg : Cfg) : World → List Key → List HOpR → List Sexp
   | _, _, [] => []
   | w, keys, op :: ops =>
-    let (w', o) := hstep cfg w op
-    let keys' := match op with
-      | .load r => match resolve cfg.path.isEmpty r with
+    let (w', o) := hstepR Genshi.Gen.Loader.mtimeOfOpenedFile cfg w op
+    let keys' := match reqOf op with
+      | some r => match resolve cfg.path.isEmpty r with
         | some k => if keys.contains k then keys else keys ++ [k]
         | none => keys
-      | _ => keys
-    let here : Sexp := match op, o with
-      | .load _, some res => .list [resS res, lstateS w'.ls keys']
-      | .load _, none => .atom "unmodelled"
-      | _, _ => .atom "U"
+      | none => keys
+    let here : Sexp := match reqOf op, o with
+      | some _, some res =>
+        match op with
+        -- a racing load also says whether (and where) the replacement landed: the clock
+        | .loadRace _ _ => .list [resS res, lstateS w'.ls keys', ofNat (w'.clock - w.clock)]
+        | _ => .list [resS res, lstateS w'.ls keys']
+      | some _, none => .atom "unmodelled"
+      | none, _ => .atom "U"
     here :: histRun cfg w' keys' ops
+/-- `C15 firstspec`: the specification side on a history — for every load what the walk over the
+    search path of that call comes to according to `firstOnPathF` (or `cached` when the model
+    answers from the cache) -/
+def specRun (cfg : Cfg) : World → List HOpR → List Sexp
+  | _, [] => []
+  | w, op :: ops =>
+    let (w', _) := hstepR Genshi.Gen.Loader.mtimeOfOpenedFile cfg w op
+    let here : Sexp := match op with
+      | .plain (.load r) =>
+        match resolve cfg.path.isEmpty r with
+        | none => .atom "unmodelled"
+        | some key =>
+          let hit := Genshi.Lru.alookup key w.ls.cache.items
+          if hit.isSome && (!cfg.autoReload || stillCurrent w.fs w.ls key) then .atom "cached" else
+          match searchPath cfg r key with
+          | none => .atom "nopath"
+          | some (entries, _) =>
+            match firstOnPathF w.fs r.fault key entries with
+            | .nothing => .atom "nothing"
+            | .raised => .atom "raised"
+            | .file loc f => .list [.atom "file", ofNat loc.dir, ofBool loc.sub, ofNat loc.base,
+                                    ofNat f.content, ofBool f.bad]
+      | _ => .atom "U"
+    here :: specRun cfg w' ops
 end
 
 def handle : List Sexp → Option Sexp
+  | [.atom "firstspec", cap, ar, cb, .list path, .list ops] => do
+      let cap ← cap.toNat?; let ar ← ar.toBool?; let cb ← cb.toBool?
+      let path ← path.mapM entry?
+      let ops ← ops.mapM hopR?
+      pure (.list (specRun ⟨path, ar, cap, cb⟩ (Genshi.Loader.World.init cap) ops))
   | [.atom "hist", cap, ar, cb, .list path, .list ops] => do
       let cap ← cap.toNat?; let ar ← ar.toBool?; let cb ← cb.toBool?
       let path ← path.mapM entry?
-      let ops ← ops.mapM hop?
+      let ops ← ops.mapM hopR?
       pure (.list (histRun ⟨path, ar, cap, cb⟩ (Genshi.Loader.World.init cap) [] ops))
   | [.atom "lrutrace", cap, nkeys, .list ops] => do
       let cap ← cap.toNat?; let nkeys ← nkeys.toNat?
